@@ -115,7 +115,7 @@ fn agree<T: Serialize>(o: &mut Out, class: &str, what: &str, st: &ST, v: &T) {
         if let Ok(nv) = capture(v) {
             let nvs = nv.to_string();
             o.case("jsonof", &[&nvs], &js);
-            o.case("inscope", &[&ss, &nvs], "11");
+            o.case("inscope", &[&ss, &nvs], "111");
             o.case("conform", &[&ss, &nvs, &hex(&stat)], "1 ok x");
         }
     }
